@@ -74,7 +74,7 @@ def cfgOf (o : O) (c : OConn) : Cfg := { fix := o.fix, v5 := c.v5 }
 
 def prio : List Act :=
   [.rSendAbort, .rRead, .rReadErr, .rSend, .rWaitConn, .rErr, .rSendDisc, .rCloseIn,
-   .wRecv, .wWriteOk, .wWriteFail, .wClose, .wDrain, .wFlush, .wErr, .wCloseSock,
+   .wRecv, .wWriteOk, .wWriteFail, .wClose, .wDrain, .wFlushConnack, .wFlush, .wErr, .wCloseSock,
    .cRecv, .cRecvNil, .cSendAuth, .cSendAuthSkip, .cSendErrConnack, .cSendErrConnackSkip,
    .cWriteConnack, .cWriteConnackSkip, .cErr, .cCloseConnected,
    .sSpawn, .sWaitRead, .sCloseQueue, .sClosePl, .sWaitWg, .sCloseSock, .sUnreg, .sCloseClosed,
